@@ -2,10 +2,10 @@
 Property C06 — expired or undated layouts are never accepted.
 
 Model: InToto/Model/Expiry.lean (`time.Parse` for the one layout string, `VerifyLayoutExpiration`);
-the pipeline theorems (expiry is consulted by both entry points before any link is read or any
-inspection is run) are in InToto/Properties/Pipeline.lean once the pipeline model is in place.
+pipeline theorems below are over `verifyAux` (InToto/Model/Verify.lean), one level of either entry point.
 -/
 import InToto.Model.Expiry
+import InToto.Proofs.PipeSigs
 
 namespace InToto.C06
 open InToto InToto.Expiry
@@ -29,6 +29,27 @@ theorem expired_rejected (now : Int) (s : Str) (t : Stamp) (h : parseExpiry s = 
     (hpast : t.unixNanos < now) : expiryOK now s = false := by
   simp [expiryOK, h]
   omega
+
+/-- C06 (pipeline, soundness): acceptance at any level, through either entry point, implies the
+    layout's expiry parses and is not in the past at verification time. -/
+theorem accepted_means_not_expired (W : Verify.World) (ln : Bool) (ci : List Str) (fuel : Nat) (md : Metadata.Md)
+    (keys : List (Str × Verify.Key)) (dir : Verify.Dir) (sn : Str) (params : List (Str × Str))
+    (rd : Verify.RunDirState) (acc : Verify.Acc) (s : Verify.Summary)
+    (h : (Verify.verifyAux W ln ci (fuel + 1) md keys dir sn params rd acc).out = .ok s) :
+    ∃ lay0, md.payload = .layout lay0 ∧ ∃ t, parseExpiry (Schema.fget lay0 (lit% "expires")).asStr = some t ∧ W.now ≤ t.unixNanos := by
+  obtain ⟨_, _, _, lay0, hp, hexp, _⟩ := PipeProofs.verifyAux_ok_inv W ln ci fuel md keys dir sn params rd acc s h
+  exact ⟨lay0, hp, accepted_is_future W.now _ hexp⟩
+
+/-- C06 (pipeline, "none of its inspection commands is run"): an expired or undated layout is
+    rejected and nothing was executed or changed at this level — even when every signature, link
+    and rule is otherwise in order; for both entry points. -/
+theorem expired_rejected_nothing_runs (W : Verify.World) (ln : Bool) (ci : List Str) (fuel : Nat) (md : Metadata.Md)
+    (keys : List (Str × Verify.Key)) (dir : Verify.Dir) (sn : Str) (params : List (Str × Str))
+    (rd : Verify.RunDirState) (acc : Verify.Acc) (lay0 : Schema.TVal) (hp : md.payload = .layout lay0)
+    (h : expiryOK W.now (Schema.fget lay0 (lit% "expires")).asStr = false) :
+    let r := Verify.verifyAux W ln ci (fuel + 1) md keys dir sn params rd acc
+    r.out.isOk = false ∧ r.ran = acc.ran ∧ r.fs = acc.fs :=
+  PipeProofs.verifyAux_expiry_first W ln ci fuel md keys dir sn params rd acc lay0 hp h
 
 /-- what is and is not a well-formed expiry (checked by evaluation in the kernel) -/
 theorem grammar_examples :
